@@ -1,14 +1,32 @@
 #!/usr/bin/env python3
 """Detection self-test (development time only): apply one-line mutants of verde to
 /repo's working tree, run the property's check, and restore the tree with
-`git checkout`. Usage: tools/canary.py [quick|thorough] [Cxx ...]"""
+`git checkout`. Usage: tools/canary.py [--scratch] [quick|thorough] [Cxx ...]
+With --scratch each mutant is applied in a scratch worktree of /repo's HEAD under /tmp instead
+(VERIF_REPO), so that /repo itself is never touched."""
 import json, os, subprocess, sys, time
 
 VERIF = os.path.dirname(os.path.dirname(os.path.abspath(__file__)))
 CAN = json.load(open(os.path.join(VERIF, "canaries.json")))
 
 def main():
-    args = sys.argv[1:]
+    args = [a for a in sys.argv[1:] if a != "--scratch"]
+    scratch = "--scratch" in sys.argv
+    root = "/repo"
+    if scratch:
+        import shutil
+
+        root = "/tmp/canary_%d" % os.getpid()
+        subprocess.run(["git", "-C", "/repo", "worktree", "add", "-q", "--detach", root, "HEAD"], check=True)
+        shutil.copy("/repo/verde/_version_generated.py", os.path.join(root, "verde", "_version_generated.py"))
+    try:
+        _run(args, root, scratch)
+    finally:
+        if scratch:
+            subprocess.run(["git", "-C", "/repo", "worktree", "remove", "--force", root])
+
+
+def _run(args, root, scratch):
     tier = "quick"
     if args and args[0] in ("quick", "thorough"):
         tier = args.pop(0)
@@ -18,7 +36,7 @@ def main():
     for c in CAN:
         if want and c["property"] not in want and c["name"] not in args:
             continue
-        path = os.path.join("/repo", c["file"])
+        path = os.path.join(root, c["file"])
         src = open(path).read()
         if src.count(c["old"]) != 1:
             rows.append((c["property"], c["name"], "SKIP (pattern count %d)" % src.count(c["old"]), 0)); print("%-4s %-45s %-13s" % rows[-1][:3]); continue
@@ -26,10 +44,10 @@ def main():
             open(path, "w").write(src.replace(c["old"], c["new"]))
             t = time.time()
             cmd = [os.path.join(VERIF, "check"), tier, c["property"]] + ([c["harness"]] if c.get("harness") else [])
-            p = subprocess.run(cmd, capture_output=True, text=True, env=dict(os.environ, VERIF_QUIET="1", VERIF_EVIDENCE_DIR=os.path.join("/verif", ".work", "evidence")))
+            p = subprocess.run(cmd, capture_output=True, text=True, env=dict(os.environ, **({"VERIF_REPO": root} if scratch else {}), VERIF_QUIET="1", VERIF_EVIDENCE_DIR=os.path.join("/verif", ".work", "evidence")))
             dt = time.time() - t
         finally:
-            subprocess.run(["git", "-C", "/repo", "checkout", "--", "."], check=True)
+            subprocess.run(["git", "-C", root, "checkout", "--", "."], check=True)
         viol = [l for l in p.stdout.splitlines() if l.startswith("VIOLATION")]
         verdict = "CAUGHT" if p.returncode == 1 and viol else ("INCONCLUSIVE" if p.returncode == 3 else "MISSED")
         rows.append((c["property"], c["name"], verdict, dt))
